@@ -70,6 +70,7 @@ type pRet struct {
 	Bads   []pBad  `json:"bads"`
 	Fails  []pFail `json:"fails"` // C04: SQL/Pos/End/Walk calls that panicked
 	Ncalls int     `json:"ncalls"`
+	Nodes  [][]int `json:"nodes"` // C05 on error trees: [pos, end, parent (1-based, 0 none), exempt (children of CreateTable)] in reflective pre-order
 }
 // MarshalJSON writes an event as the array [ev, np, c, d, k, kv, tp, te, nc, a, b, n] (6x smaller than an object).
 func (e pEv) MarshalJSON() ([]byte, error) {
@@ -302,6 +303,38 @@ func collectBads(roots []ast.Node, ret *pRet) {
 	}
 }
 
+// collectNodes lists (pos, end, parent) of every node of an error tree (C05, error clause).
+func collectNodes(roots []ast.Node, ret *pRet) {
+	for _, root := range roots {
+		if root == nil {
+			continue
+		}
+		safely(func() {
+			var walk func(n ast.Node, parent, depth int, exempt bool)
+			walk = func(n ast.Node, parent, depth int, exempt bool) {
+				if depth > 2000 || len(ret.Nodes) > 4000 {
+					return
+				}
+				p, e := -7, -7
+				safely(func() { p, e = int(n.Pos()), int(n.End()) })
+				ex := 0
+				if exempt {
+					ex = 1
+				}
+				ret.Nodes = append(ret.Nodes, []int{p, e, parent, ex})
+				me := len(ret.Nodes)
+				_, isCT := n.(*ast.CreateTable)
+				for _, c := range children(n) {
+					if c.Node != nil {
+						walk(c.Node, me, depth+1, isCT)
+					}
+				}
+			}
+			walk(root, 0, 0, false)
+		})
+	}
+}
+
 var watchStart atomic.Int64 // unix nanos of the running call, 0 if none
 var watchInfo atomic.Value  // string describing the running call
 
@@ -331,7 +364,7 @@ func startWatchdog(hangFile string, limit time.Duration) {
 
 func parseOne(entry, in string, doExercise bool) (rec pRec) {
 	rec = pRec{Entry: entry, Buf: ints(in), Evs: []pEv{}}
-	rec.Ret = pRet{Errs: []pErr{}, Bads: []pBad{}, Fails: []pFail{}, Fkv: []int{}}
+	rec.Ret = pRet{Errs: []pErr{}, Bads: []pBad{}, Fails: []pFail{}, Fkv: []int{}, Nodes: [][]int{}}
 	file := &token.File{FilePath: "", Buffer: in}
 	p := &memefish.Parser{Lexer: &memefish.Lexer{File: file}}
 	evs := make([]pEv, 0, 64)
@@ -390,6 +423,9 @@ func parseOne(entry, in string, doExercise bool) (rec pRec) {
 		ret.NilNode = true
 	}
 	collectBads(nodes, ret)
+	if !ret.NilErr {
+		collectNodes(nodes, ret)
+	}
 	if doExercise {
 		exercise(nodes, ret)
 	}
